@@ -308,7 +308,7 @@ def sec_runner(rep):
         sy = H.Sy(extra=" ".join(f"q{i}" for i in range(n)))
         pre = [getattr(sy, f"q{i}") > 0 for i in range(n)]
 
-        def build(n=n, sy=sy, q2s=None):
+        def build(n=n, sy=sy, q2s=None, repeat=None):
             log = []
 
             class Elem:
@@ -325,6 +325,10 @@ def sec_runner(rep):
                 def __init__(s, name):
                     s.name = name
                     s.esfs = [Elem(i) for i in range(n)]
+                    if repeat:
+                        # a point listed twice is ONE object at two positions (StructureFunction.load
+                        # goes through the get_esf cache)
+                        s.esfs = [s.esfs[j] for j in repeat]
                     s.cache = {"stale": 1}
 
                 def drop_cache(s):
@@ -334,7 +338,7 @@ def sec_runner(rep):
             r = rmod.Runner.__new__(rmod.Runner)
             r.console = Console()
             r.observables = {"F2_total": Obs("F2_total"), "helper_added_by_get_sf": Obs("helper")}
-            r._observables = {"observables": {"F2_total": [None] * n}}
+            r._observables = {"observables": {"F2_total": [None] * (len(repeat) if repeat else n)}}
             from yadism.output import Output
 
             r._output = Output()
@@ -372,6 +376,18 @@ def sec_runner(rep):
         except Exception as e:  # noqa
             ok, detail = False, f"{type(e).__name__}: {e}"
         rep.add(ob_eval(f"C14/Runner.get_result/n={n_long} with {nvals} distinct Q2 in mixed order/results[i] = result of element i", ok, detail=detail, inputs={} if ok else {"Q2_list": str(q2s), "observed": detail}))
+    # a kinematic point listed more than once: the same element object sits at several positions
+    for repeat in ([0, 1, 0], [2, 2, 2], [1, 0, 3, 0, 1, 2, 3]):
+        rep.cases += 1
+        try:
+            nn = max(repeat) + 1
+            out, log = build(n=nn, sy=None, q2s=[10.0, 4.0, 30.0, 4.0][:nn], repeat=repeat)
+            got = [None if r_ is None else r_.x for r_ in out["F2_total"]]
+            ok = got == [float(j) for j in repeat]
+            detail = "every slot holds the result of its own element" if ok else f"slots hold {got} for elements {repeat}"
+        except Exception as e:  # noqa
+            ok, detail = False, f"{type(e).__name__}: {e}"
+        rep.add(ob_eval(f"C14/Runner.get_result/points listed more than once {repeat}/results[i] = result of element i", ok, detail=detail, inputs={} if ok else {"element at each position": str(repeat), "observed": detail}))
     # Runner.__init__: every card entry gets its OWN observable object loaded with exactly its own
     # kinematics -- two spellings of one structure function ("F2", "F2_total") included
     from yadism import observable_name as onmod
@@ -473,9 +489,13 @@ def sec_bounded_end_to_end(rep, tier):
             "other-observables-first": {"FL_total": pts, "F3_total": pts, "F2_total": pts}, "with-cross-section": {"XSHERANC_total": [dict(p, y=0.5) for p in pts], "F2_total": pts},
         }
         for nm, obs in scenarios.items():
-            _, out = run(obs)
-            ok = all(sig(e) == ref[(p["x"], p["Q2"])] for p, e in zip(obs["F2_total"], out["F2_total"]))
-            o = ob_eval(f"C14/end-to-end(LO, real runner)/{nm}", ok, kind="bounded", detail="bit-for-bit equal operators")
+            try:
+                _, out = run(obs)
+                ok = all(sig(e) == ref[(p["x"], p["Q2"])] for p, e in zip(obs["F2_total"], out["F2_total"]))
+                detail = "bit-for-bit equal operators" if ok else "operators differ from the reference run"
+            except Exception as e:  # noqa -- the reference run worked: a request history that makes the run fail is a dependence on history
+                ok, detail = False, f"{type(e).__name__}: {e}"
+            o = ob_eval(f"C14/end-to-end(LO, real runner)/{nm}", ok, kind="bounded", detail=detail, inputs={} if ok else {"scenario": nm, "observables": str(obs)[:300], "observed": detail})
             o.bounded = True
             rep.add(o)
         again = r0.get_result()
